@@ -32,6 +32,10 @@ sys.path.insert(0, os.path.dirname(os.path.dirname(os.path.abspath(__file__))))
 from vlib.worker import Worker, guarded, short, use_repo   # noqa: E402
 
 use_repo()
+from vlib import draws   # noqa: E402
+
+draws.install()
+draws.CTL.armed = 7     # one constant sampler draw for all three variants (a sampled verdict is not a variant difference)
 import beartype   # noqa: E402,F401
 import beartype.roar as roar   # noqa: E402
 
@@ -48,8 +52,12 @@ RULE = ('one decorated callable per case: module function, closure in 1-3 functi
         'position satisfying, or exactly one position violating (wrong atoms, uniformly wrong container items, failing '
         'validators, instances of other / same-named unrelated classes, subclasses), return value likewise; for closures '
         'the calls run while the outermost enclosing frame is alive, after it returned, or split; compared: per-call '
-        'verdict (accept | exception class) of S, P and PS against E; distinct by program structure; non-trivial = at '
-        'least one hint names a generated class or alias')
+        'verdict (accept | exception class) of S, P and PS against E; unresolved stream: one module-level name (plain or '
+        'dotted through an undefined auxiliary class) in one position (R, Optional[R], R | int, Union, Annotated, below '
+        'list / dict / tuple / Sequence / list[list], type[R]) left undefined for every placement: calls that cannot '
+        'need it, two calls that need it, definition by executing the rest of the module or by setattr, then the full '
+        'call list against E; distinct by program structure; non-trivial = at least one hint names a generated class '
+        'or alias')
 
 PRELUDE = ['import typing',
            'from typing import Annotated, Callable, Literal, Optional, Union',
@@ -884,7 +892,7 @@ def classify(pkg, case, variant, calls, inside, oe, ov):
                 break
     if culprit is None:
         # (no single annotation reproduces it with these calls: keyed coarsely, the witness carries the program)
-        return 'only-with-several-annotations-together', symptom(outcome(oe), outcome(ov)), None
+        return 'only-with-several-annotations-together', 'any', None
     c2 = copy.copy(case)
     c2.params = [[pn, (h if j == culprit else None), d] for j, (pn, h, d) in enumerate(case.params)]
     c2.ret = case.ret if culprit == 'ret' else None
@@ -1320,6 +1328,35 @@ def main():
         'warnings emitted at decoration are ignored'])
     limit = 400000 if W.quick else 20000000
 
+    # Mechanism keys: the fine-grained key (kept in the description) is reduced to
+    # (reference spelling family, where the head name is visible when the callable is
+    # decorated); outcome, placement and hint shape are dropped so that one mechanism is
+    # one key, while a reference that *is* visible at decoration keeps a key of its own.
+    import re as _re
+    _fine_violation = W.violation
+
+    def _coarse(key):
+        if key.startswith(('harness', 'decoration-raised')):
+            return key
+        head = _re.search(r'head-[a-z-]+', key)
+        head = head.group(0) if head else None
+        if key.startswith('unresolved-name-wrong-exception:violation'):
+            return 'unresolved-name-raises-violation-instead-of-forward-reference-exception'
+        if 'only-with-several-annotations-together' in key:
+            return 'several-string-annotations-together'
+        if 'after-definition' in key:
+            return ('dotted' if 'dotted' in key else 'bare') + ':differs-after-definition'
+        fam = 'dotted' if ':dotted:' in key else 'bare' if ('bare:' in key) else None
+        if fam and head:
+            if fam == 'bare' and head == 'head-class-under-construction' and 'forward-reference-exception' in key:
+                return 'bare:head-class-under-construction:forward-reference-exception'
+            return f'{fam}:{head}'
+        return key
+
+    def _violation(key, what, stream, index, witness=None):
+        return _fine_violation(_coarse(key), f'[{key}] {what}', stream, index, witness)
+    W.violation = _violation
+
     if W.is_lead():
         names = sorted(n for n in dir(roar) if 'ForwardRef' in n and isinstance(getattr(roar, n), type)
                        and issubclass(getattr(roar, n), Exception) and not issubclass(getattr(roar, n), Warning))
@@ -1352,6 +1389,7 @@ def main():
                               calls=res['witness']['calls'][:3]))
             absorb(W, stream, idx, res)
 
+    W.need('directed_cases', len(DIRECTED))
     W.need('diff_cases', 400)
     W.need('calls_compared', 6000)
     for v in ('S', 'P', 'PS'):
